@@ -7,7 +7,7 @@ Local Open Scope string_scope.
 (** the methods of [dd.bdd.BDD] the model wraps with [try_to_reorder];
     [reduction] is a Python-only utility that is not modelled *)
 Definition model_decorated : list string :=
-  ["add_expr"; "cofactor"; "compose"; "cube"; "ite"; "quantify"; "reduction"; "rename"; "var"].
+  ["_quantify_vars"; "add_expr"; "cofactor"; "compose"; "cube"; "ite"; "reduction"; "rename"; "var"].
 
 Lemma decorated_table : py_decorated = model_decorated.
 Proof. reflexivity. Qed.
